@@ -227,6 +227,7 @@ func (tr *Transaction) Commit() error {
 				// Success. Set db.seq.
 				verifYield(6)
 				tr.db.setSeq(tr.seq)
+				verifEvent(509, tr.seq, 0)
 				break
 			}
 		}
